@@ -5,7 +5,7 @@ from sa.model import AnalysisError, ClassInfo, norm, walk_no_nested
 from sa.roles import ReaderRoles, SPEC_IDS
 from sa.harness import ReaderHarness, Script
 from sa.interp import Interp, Frame, exc_name, exc_ancestors
-from sa.values import ADict, AList, AObj, AStream, Unk, taint_of
+from sa.values import ADict, AList, AObj, AStream, Unk, concrete, taint_of
 from sa.dom import DomReaderHarness, capture_record_shapes, materialise_record, DomRoles
 from sa.props.c10 import allowed_var, main_loop
 from sa.props.c11 import input_dependent
@@ -58,6 +58,11 @@ def _task(X):
     from sa.props.reader_rules import history_script
     pre, nh = history_script(table, X)
     paths, exceeded = H.paths(pre + [Script(X, options='unknown')], max_paths=30000, det_prefix=nh)
+    from sa.model import Regex as _Regex
+    for p_ in paths:
+        for e_ in getattr(p_, 'full_events', p_.events):
+            if e_.kind == 'regex-apply' and R.header_fn in e_.stack and not isinstance(concrete(e_.data['regex']), _Regex):
+                raise AnalysisError('a regular expression applied in the header parser is not a foldable constant (%s)' % norm(e_.node)[:60])
     bad, ok = _collect(paths, R, lambda exc: exc_name(exc) == 'DiffXParseError')
     explicit = set()
     for p in paths:
@@ -193,6 +198,32 @@ def run(P, rep, tier):
             rep.violation(r3, 'attr:%s' % attr, init.loc(), 'DiffXParseError.%s is not the unmodified %s argument (stored: %s): message and attribute disagree'
                           % (attr, attr, norm(v) if v is not None else 'nothing'))
     fmt = [norm(n) for n in walk_no_nested(init.node) if isinstance(n, ast.BinOp) and isinstance(n.op, ast.Add)]
+    # the 1-based rendering may sit in a helper the constructor hands the two numbers to: follow one call level,
+    # renaming the helper's parameters back to the constructor's
+    for n in walk_no_nested(init.node):
+        if not isinstance(n, ast.Call):
+            continue
+        try:
+            r_ = P.resolve_call(init, n, self_cls=pe)
+        except Exception:
+            r_ = None
+        callee = r_[0] if isinstance(r_, list) and r_ else (r_ if hasattr(r_, 'node') and hasattr(r_, 'params') else None)
+        if callee is None or callee is init:
+            continue
+        ps = callee.params()
+        if ps and ps[0] in ('self', 'cls') and callee.kind != 'staticmethod':
+            ps = ps[1:]
+        ren = {}
+        for i_, a_ in enumerate(n.args):
+            if isinstance(a_, ast.Name) and a_.id in ('linenum', 'column') and i_ < len(ps):
+                ren[ps[i_]] = a_.id
+        for kw_ in n.keywords:
+            if kw_.arg and isinstance(kw_.value, ast.Name) and kw_.value.id in ('linenum', 'column'):
+                ren[kw_.arg] = kw_.value.id
+        for m_ in walk_no_nested(callee.node):
+            if isinstance(m_, ast.BinOp) and isinstance(m_.op, ast.Add) and isinstance(m_.left, ast.Name) and m_.left.id in ren \
+                    and isinstance(m_.right, ast.Constant) and m_.right.value == 1 and not _reassigned(callee, m_.left.id):
+                fmt.append('%s + 1' % ren[m_.left.id])
     for attr in ('linenum', 'column'):
         if any(x.replace(' ', '') in ('%s+1' % attr,) for x in fmt):
             rep.ok(r3, 'message shows %s + 1' % attr)
